@@ -500,15 +500,33 @@ func mergeDirectiveListsEqual(list1, list2 ast.DirectiveList) error {
 		return errors.New("there were an inconsistent number of directives")
 	}
 
-	// compare each argument to its counterpart in the other list
-	for _, arg1 := range list1 {
-		arg2 := list2.ForName(arg1.Name)
-		if arg2 == nil {
-			return fmt.Errorf("could not find the directive with name %s", arg1.Name)
+	// compare each directive to its counterpart in the other list
+	for i, directive1 := range list1 {
+		// a repeatable directive can be applied more than once: the n-th application of a
+		// directive is compared with the n-th application of that directive in the other list
+		nth := 0
+		for _, earlier := range list1[:i] {
+			if earlier.Name == directive1.Name {
+				nth++
+			}
+		}
+		var directive2 *ast.Directive
+		for _, candidate := range list2 {
+			if candidate.Name != directive1.Name {
+				continue
+			}
+			if nth == 0 {
+				directive2 = candidate
+				break
+			}
+			nth--
+		}
+		if directive2 == nil {
+			return fmt.Errorf("could not find the directive with name %s", directive1.Name)
 		}
 
-		// if the 2 arguments are not the same
-		if err := mergeDirectiveEqual(arg1, arg2); err != nil {
+		// if the 2 directives are not the same
+		if err := mergeDirectiveEqual(directive1, directive2); err != nil {
 			return err
 		}
 	}
